@@ -13,7 +13,7 @@ command list:
   U D L R E F G H n : offset (dx, dy)*n, moved = trunc(scale * offset / 4) (toward zero), per axis
   M+x,y / M-x,y    : relative move by trunc(scale*x/4), trunc(scale*y/4);  M x,y : absolute position
   B : the next move does not draw;  N : the next move returns to its start;  both for one move only
-  S n : scale (1..255);  C n : colour for the following segments;  X s$ : executes the substring
+  S n : scale (1..255);  C n : colour for the following segments, clipped to the mode's attributes as LINE clips it;  X s$ : executes the substring
   every drawn segment is one _draw_line(start, end, colour) - the line LINE draws (C31)
   POINT(0), POINT(1) report the final pen position
 Illegal function call for counts beyond +-99999, coordinates beyond +-9999, scale outside 1..255.
@@ -59,6 +59,7 @@ def _graphics(E, lines):
     g._draw_scale = 4
     g._draw_angle = 0
     g._last_attr = 3
+    g._num_attr = 4
     x0, y0 = E.int('x0', -32768, 32767), E.int('y0', -32768, 32767)
     g._last_point = (x0, y0)
     g._draw_current = None
@@ -130,7 +131,8 @@ def _build(E, g, cmds):
         elif op == b'C':
             a = var(c[1])
             text += b'C=' + c[1] + b';'
-            colour = a
+            # the colour LINE would use for this number: clipped to the attributes of the mode
+            colour = Min(g._num_attr - 1, Max(0, a))
         elif op == b' ':
             text += b' ;'
         else:
